@@ -21,6 +21,10 @@ class Filt:
     def require(self, name, cond, note=None):
         if name.startswith(self._pre):
             self._ctx.require(name, cond, note)
+        else:
+            r = getattr(self._ctx, "runner", None)
+            if r is not None:
+                r.res.ob_other_property += 1
 
     def lemma(self, name, cond):
         self._ctx.lemma(name, cond)
